@@ -45,11 +45,21 @@ func c13Check(c *Ctx, b *roaring.Bitmap, m *ISet, mutate bool) {
 			if dsz < 0 {
 				continue
 			}
-			dst := make([]byte, dsz)
-			for i := range dst {
-				dst[i] = 0xCD
+			// "any sufficiently large buffer": the destination may start at any address (a sub-slice of a larger
+			// buffer at an odd offset) and may have spare capacity behind it that is not the writer's to use
+			off := []int{0, 0, 1, 2, 3, 4, 7}[r.Intn(7)]
+			big := make([]byte, off+dsz+r.Intn(40))
+			for i := range big {
+				big[i] = 0xCD
 			}
+			dst := big[off : off+dsz]
 			n, err := b.FreezeTo(dst)
+			for i := range big {
+				if (i < off || i >= off+dsz) && big[i] != 0xCD {
+					c.Fail("FreezeTo/wrote-outside-destination", "FreezeTo into big[%d:%d] modified big[%d]", off, off+dsz, i)
+					return
+				}
+			}
 			if dsz < int(size) {
 				if err == nil {
 					c.Fail("FreezeTo/too-small-no-error", "FreezeTo into %d bytes (need %d) returned (%d,nil)", dsz, size, n)
